@@ -38,7 +38,7 @@ let parse_case line =
 
 let config_of ?(fault_all = None) (c : case) : config =
   { nthreads = nat_of_int c.t; nrounds = nat_of_int c.r; ssize = (fun _ -> nat_of_int c.n);
-    shp = { drop_out = c.dout; drop_in = c.din }; guard = c.grd;
+    shp = { drop_out = c.dout; drop_in = c.din }; guard = c.grd; has_info = (fun _ -> true);
     fault = (fun i r p -> match fault_all with
       | Some b -> b
       | None -> List.mem (int_of_nat i, int_of_nat r, int_of_nat p) c.faults);
